@@ -26,7 +26,7 @@ def full(t, v):
     if v[0] == 'seq':
         return all(full(t['of'] if t['k'] == 'arr' else t, x) for x in v[1])
     if t['k'] == 'obj':
-        return all(full(f['t'], x) for f, x in zip(S.flat_fields(t), v[2]))
+        return all(f.get('exc') or full(f['t'], x) for f, x in zip(S.flat_fields(t), v[2]))
     return True
 
 
